@@ -10,4 +10,11 @@ var pureFunSpecs = []pfSpec{
 	{pkg: "x/liquidity/amm", recv: "RangedPool", fn: "Price", coq: "gen_amm_RangedPool_Price"},
 	{pkg: "x/liquidity/amm", recv: "RangedPool", fn: "BuyAmountOver", coq: "gen_amm_RangedPool_BuyAmountOver"},
 	{pkg: "x/liquidity/amm", recv: "RangedPool", fn: "SellAmountUnder", coq: "gen_amm_RangedPool_SellAmountUnder"},
+	// x/lend/keeper/maths.go (C18).  reads = keeper methods whose results are inputs
+	{pkg: "x/lend/keeper", recv: "Keeper", fn: "GetUtilisationRatioByPoolIDAndAssetID", coq: "gen_lend_GetUtilisationRatio",
+		reads: []string{"GetPool", "GetAsset", "ModuleBalance", "GetAssetStatsByPoolIDAndAssetID"}},
+	{pkg: "x/lend/keeper", recv: "Keeper", fn: "GetBorrowAPRByAssetID", coq: "gen_lend_GetBorrowAPR",
+		reads: []string{"GetAssetRatesParams"}},
+	{pkg: "x/lend/keeper", recv: "Keeper", fn: "GetLendAPRByAssetIDAndPoolID", coq: "gen_lend_GetLendAPR",
+		reads: []string{"GetAssetRatesParams"}},
 }
